@@ -56,8 +56,8 @@ def _r1(ctx):
     fd = ctx.func("Frontend.full_analysis_dict")
     lc = ctx.func("Frontend._get_lcd_cp_ports")
 
-    def pair(name, ok, where, detail):
-        ctx.check(ok, "R1", name, where, "text report and dict disagree on %s: %s" % (name, detail),
+    def pair(name, ok, where, detail, recognised=True):
+        ctx.judge(ok, recognised, "R1", name, where, "text report and dict disagree on %s: %s" % (name, detail),
                   "Frontend", "pair " + name)
 
     # --- port cell / PortPressure
@@ -70,17 +70,25 @@ def _r1(ctx):
     kern = [g for g in ast.walk(fd.node) if isinstance(g, ast.comprehension) and U(g.iter) == fd.params()[1]]
     pair("port cell / PortPressure", t_ok and d_ok and bool(kern), cv.where(tcall[0]) if tcall else cv.where(),
          "text prints <line>.port_pressure of every kernel line, dict must enumerate the same attribute over the "
-         "model's port list (text ok=%s, dict ok=%s)" % (t_ok, d_ok))
+         "model's port list (text ok=%s, dict ok=%s)" % (t_ok, d_ok), recognised=bool(tcall) and bool(loops) and dv is not None)
     # --- CP cell / LatencyCP
     dv = _dict_value(fd, "LatencyCP", "LatencyLCD")
     t = pm.find("M_v = float(self._get_node_by_lineno(M_ln, M_cp).latency_cp)", lc.node)
-    pair("CP cell / LatencyCP", dv is not None and _origin_attr(dv) == "latency_cp" and bool(t), lc.where(),
-         "both must read .latency_cp (dict reads %s)" % (U(dv) if dv is not None else None))
+    if not t:
+        t = pm.find("M_v = float(self._get_node_by_lineno(M_ln, M_cp).M_attr)", lc.node)
+        t = [x for x in t if U(x[0].targets[0]).startswith("lat_cp") or "cp" in U(x[0].targets[0])]
+        t_attr = t[0][1]["M_attr"] if t else None
+    else:
+        t_attr = "latency_cp"
+    pair("CP cell / LatencyCP", dv is not None and _origin_attr(dv) == "latency_cp" and t_attr == "latency_cp", lc.where(),
+         "both must read .latency_cp (text reads .%s, dict reads %s)" % (t_attr, U(dv) if dv is not None else None),
+         recognised=dv is not None and _origin_attr(dv) is not None and t_attr is not None)
     # the CP cell is shown exactly for lines of the critical path
     call = C.calls_to(cv.node, "_get_lcd_cp_ports")
     cp_guard = bool(call) and pm.match("M_cp if M_ln in M_lines else None", call[0].args[1]) is not None
     pair("CP cell shown for critical-path lines only", cp_guard, cv.where(call[0]) if call else cv.where(),
-         "the CP cell must be filled iff the line number is in the critical path's line numbers")
+         "the CP cell must be filled iff the line number is in the critical path's line numbers",
+         recognised=bool(call) and len(call[0].args) > 1)
     # --- LCD cell / LatencyLCD
     dv = _dict_value(fd, "LatencyLCD", "LatencyCP")
     text_src = pm.find("M_l = {M_i.line_number: M_lat for M_i, M_lat in M_d[M_v]['dependencies']}", cv.node)
@@ -106,7 +114,7 @@ def _r1(ctx):
                  "the per-line latencies of the selected loop-carried dependency: LatencyLCD is always %s"
                  % (attr, sorted({U(s[2]) for s in consts}), sorted({U(s[2]) for s in consts})))
         else:
-            pair("LCD cell / LatencyLCD", False, fd.where(dv), "unrecognised dict expression %s" % U(dv))
+            pair("LCD cell / LatencyLCD", False, fd.where(dv), "unrecognised dict expression %s" % U(dv), recognised=False)
     # --- the same cycle is selected on both sides (ties between equally long cycles are broken by the expression)
     def selection(fi):
         for n in ast.walk(fi.node):
@@ -135,7 +143,8 @@ def _r1(ctx):
              "text selects with `%s`, dict with `%s`: among several cycles of equal maximal latency the two expressions pick "
              "different ones, so the LCD column marks other lines than LatencyLCD" % (tsel, dsel))
     else:
-        pair("LCD cell / LatencyLCD: the same cycle is selected", False, cv.where(), "selection of the longest cycle not found")
+        pair("LCD cell / LatencyLCD: the same cycle is selected", False, cv.where(), "selection of the longest cycle not found",
+             recognised=False)
     # --- summary ports
     tsum = pm.find("M_t = ArchSemantics.get_throughput_sum(%s)" % cv.params()[1], cv.node)
     dsum = pm.find_any(["M_t = ArchSemantics.get_throughput_sum(%s) or %s[0].port_pressure" % (fd.params()[1], fd.params()[1]),
@@ -150,7 +159,8 @@ def _r1(ctx):
         "{self._machine_model.get_ports()[M_i]: M_v for M_i, M_v in enumerate(%s)}" % U(dsum[0][1]["M_t"]), dpp) is not None
     t_ok = bool(tsum) and any(U(c.args[0]) == U(tsum[0][1]["M_t"]) for c in C.calls_to(cv.node, "_get_port_pressure"))
     pair("summary row / Summary.PortPressure", t_ok and d_ok, cv.where(),
-         "both must come from ArchSemantics.get_throughput_sum(kernel) (text ok=%s, dict ok=%s)" % (t_ok, d_ok))
+         "both must come from ArchSemantics.get_throughput_sum(kernel) (text ok=%s, dict ok=%s)" % (t_ok, d_ok),
+         recognised=bool(tsum) and dpp is not None)
     # --- CP total
     fa = ctx.func("Frontend.full_analysis")
     tcp = pm.find("M_s = sum([M_x.latency_cp for M_x in %s])" % cv.params()[2], cv.node)
@@ -164,16 +174,18 @@ def _r1(ctx):
     cvcall = C.calls_to(fa.node, "combined_view")
     t_ok = bool(tcp) and bool(cvcall) and U(cvcall[0].args[1]) == "%s.get_critical_path()" % fa.params()[2]
     pair("CP total / Summary.CriticalPath", t_ok and d_ok, cv.where(),
-         "both must be sum(latency_cp) over get_critical_path() (text ok=%s, dict ok=%s)" % (t_ok, d_ok))
+         "both must be sum(latency_cp) over get_critical_path() (text ok=%s, dict ok=%s)" % (t_ok, d_ok),
+         recognised=dcp is not None and bool(cvcall) and (bool(tcp) or bool(pm.find("M_s = sum([M_x.M_a for M_x in %s])" % cv.params()[2], cv.node))))
     # printed total is that sum
     fmt = [n for n in ast.walk(cv.node) if isinstance(n, ast.Call) and isinstance(n.func, ast.Attribute)
            and n.func.attr == "format" and isinstance(n.func.value, ast.Constant) and "{:>5}" in str(n.func.value.value)]
     if tcp and fmt:
         lcdv = pm.find("M_s = M_d[M_v]['latency']", cv.node)
         ok = [U(a) for a in fmt[0].args] == [U(tcp[0][1]["M_s"]), U(lcdv[0][1]["M_s"]) if lcdv else "?"]
-        pair("summary line prints (CP total, LCD figure)", ok, cv.where(fmt[0]), "printed %s" % [U(a) for a in fmt[0].args])
+        pair("summary line prints (CP total, LCD figure)", ok, cv.where(fmt[0]), "printed %s" % [U(a) for a in fmt[0].args],
+             recognised=bool(lcdv))
     else:
-        pair("summary line prints (CP total, LCD figure)", False, cv.where(), "format call not found")
+        pair("summary line prints (CP total, LCD figure)", False, cv.where(), "format call not found", recognised=False)
     # --- LCD figure
     dl = None
     if isinstance(dv, ast.Dict):
@@ -182,7 +194,8 @@ def _r1(ctx):
                 dl = v
     dls = pm.find("M_s = M_d[M_v]['latency']", fd.node)
     pair("LCD figure / Summary.LCD", dl is not None and bool(dls) and U(dl) == U(dls[0][1]["M_s"]), fd.where(),
-         "Summary.LCD must be the latency of the selected cycle (selection agreement is C05-R7)")
+         "Summary.LCD must be the latency of the selected cycle (selection agreement is C05-R7)",
+         recognised=dl is not None and (bool(dls) or isinstance(dl, ast.Constant)))
     # both use the same dependency dict
     dd = pm.find("M_d = %s.get_loopcarried_dependencies()" % fd.params()[2], fd.node)
     t_dd = bool(cvcall) and U(cvcall[0].args[2]) == "%s.get_loopcarried_dependencies()" % fa.params()[2]
@@ -193,15 +206,19 @@ def _r1(ctx):
     dep = ll.params()[1]
     loops = [n for n in ast.walk(ll.node) if isinstance(n, ast.For)]
     ok = len(loops) == 1 and U(loops[0].iter) in ("sorted(%s.keys())" % dep, "sorted(%s)" % dep, "%s" % dep, "%s.keys()" % dep)
+    list_rec_unknown = False
     if ok:
         k = U(loops[0].target)
         body = U(loops[0])
         ok = ("%s[%s]['latency']" % (dep, k)) in body and (
             "[node.line_number for node, lat in %s[%s]['dependencies']]" % (dep, k)) in body.replace('"', "'")
+        # an entry held in a local / other spellings of the member list: the rule does not follow them
+        list_rec_unknown = not ok and ("['latency']" in body and "['dependencies']" in body)
     lcall = C.calls_to(fa.node, "loopcarried_dependencies")
     ok = ok and bool(lcall) and U(lcall[0].args[0]) == "%s.get_loopcarried_dependencies()" % fa.params()[2]
     pair("LCD list / every loop-carried dependency with latency and member lines", ok, ll.where(),
-         "the list must iterate all keys and print each entry's latency and member line numbers")
+         "the list must iterate all keys and print each entry's latency and member line numbers",
+         recognised=len(loops) == 1 and (dep in U(loops[0].iter)) and not list_rec_unknown)
 
 
 def _r2(ctx):
@@ -240,26 +257,35 @@ def _r3(ctx):
     trig = [p for p in parts if p.startswith("INSTR_FLAGS.") and " in [" in p]
     ok = ("not " + cv.params()[4]) in parts and len(trig) == 1 and len(parts) == 2
     flag = trig[0].split(" in ")[0] if trig else None
-    ctx.check(ok and flag == "INSTR_FLAGS.TP_UNKWN", "R3", "trigger = not ignore_unknown and TP_UNKWN among the kernel's flags",
+    trig_rec = len(trig) == 1
+    ctx.judge(ok and flag == "INSTR_FLAGS.TP_UNKWN", trig_rec, "R3", "trigger = not ignore_unknown and TP_UNKWN among the kernel's flags",
               cv.where(br), "the missing-data branch is not `not ignore_unknown and INSTR_FLAGS.TP_UNKWN in <all flags>` "
               "(test: %s)" % U(br.test)[:160], cv.qname, "unknown trigger")
     cnt = pm.find("M_n = len([M_i.flags for M_i in %s if M_f in M_i.flags])" % cv.params()[1], br)
-    ctx.check(bool(cnt) and U(cnt[0][1]["M_f"]) == flag, "R3", "warning counts the lines carrying that flag", cv.where(br),
+    cnt_any = cnt or pm.find("M_n = len([M_e for M_i in %s if M_c])" % cv.params()[1], br)
+    ctx.judge(bool(cnt) and U(cnt[0][1]["M_f"]) == flag, bool(cnt_any) and trig_rec, "R3", "warning counts the lines carrying that flag", cv.where(br),
               "the number in the warning is not the count of lines with %s" % flag, cv.qname, "unknown count")
     if cnt:
         call = C.calls_to(br, "_missing_instruction_error")[0]
         ctx.check(U(call.args[0]) == U(cnt[0][1]["M_n"]), "R3", "the count is what the warning prints", cv.where(call),
                   "the warning is given %s" % U(call.args[0]), cv.qname, "count passed")
     # totals on the else branch only
-    tot_in_else = any(C.calls_to(s, "get_throughput_sum") for s in br.orelse)
-    tot_in_body = any(C.calls_to(s, "get_throughput_sum") for s in br.body)
+    err_in_body = any(C.calls_to(s, "_missing_instruction_error") for s in br.body)
+    err_branch, other_branch = (br.body, br.orelse) if err_in_body else (br.orelse, br.body)
+    tot_in_else = any(C.calls_to(s, "get_throughput_sum") for s in other_branch)
+    tot_in_body = any(C.calls_to(s, "get_throughput_sum") for s in err_branch)
     tot_elsewhere = [c for c in C.calls_to(cv.node, "get_throughput_sum") if not C.in_subtree(c, br)]
+    # (an early return at the end of the missing-data branch makes the rest of the function its else branch)
+    tail_is_else = err_in_body and not br.orelse and br.body and isinstance(br.body[-1], ast.Return)
+    if tail_is_else:
+        after = [c for c in tot_elsewhere if C.cfg_of(cv).dominates(br, c)]
+        tot_in_else, tot_elsewhere = bool(after), [c for c in tot_elsewhere if c not in after]
     ctx.check(tot_in_else and not tot_in_body and not tot_elsewhere, "R3", "totals are printed exactly on the other branch",
               cv.where(br), "summary totals are computed/printed outside the else branch of the missing-data test",
               cv.qname, "totals branch")
     fs = ctx.func("Frontend._get_flag_symbols")
     x = pm.find("M_s += 'X' if M_f in M_o else ''", fs.node)
-    ctx.check(bool(x) and U(x[0][1]["M_f"]) == flag, "R3", "X marks lines carrying that flag", fs.where(),
+    ctx.judge(bool(x) and U(x[0][1]["M_f"]) == flag, bool(x) and trig_rec, "R3", "X marks lines carrying that flag", fs.where(),
               "the X mark is keyed on %s, the branch on %s" % (U(x[0][1]["M_f"]) if x else None, flag), fs.qname, "X mark")
     # mark shown for instruction lines
     mk = [c for c in C.calls_to(cv.node, "_get_flag_symbols")]
@@ -279,7 +305,8 @@ def _r3(ctx):
     # dict: UnknownInstrWarning keyed on the same flag
     fd = ctx.func("Frontend.full_analysis_dict")
     w = [n for n in ast.walk(fd.node) if isinstance(n, ast.If) and any("UnknownInstrWarning" in U(s) for s in n.body)]
-    ctx.check(bool(w) and U(w[0].test).startswith(str(flag) + " in "), "R3", "dict warning keyed on the same flag",
+    ctx.judge(bool(w) and U(w[0].test).startswith(str(flag) + " in "), bool(w) and trig_rec and " in " in U(w[0].test), "R3",
+              "dict warning keyed on the same flag",
               fd.where(), "UnknownInstrWarning is not keyed on %s" % flag, fd.qname, "dict unknown warning")
 
 
@@ -290,41 +317,65 @@ def _r4(ctx):
     kw = {k.arg: k.value for k in t.keywords}
     flow = C.flow_of(f)
 
+    class _Val:     # a flag passed as an expression instead of a local: the expression is its only definition
+        def __init__(self, v):
+            self.value, self.lineno, self.col_offset = v, getattr(v, "lineno", 1), 0
+            self._parent = getattr(v, "_parent", None)
+
     def defs(name):
         return [a for a in C.assigns_to(f.node, name)]
-    aw = defs(U(kw["arch_warning"])) if "arch_warning" in kw else []
+
+    def flag_defs(key):
+        if key not in kw:
+            return []
+        return defs(U(kw[key])) if isinstance(kw[key], ast.Name) else [kw[key]]
+    aw = [a if isinstance(a, ast.stmt) else _Val(a) for a in flag_defs("arch_warning")]
     ok = len(aw) == 1 and U(aw[0].value) in [C.CT(t) for t in (
         "False if args.arch else True", "not args.arch", "args.arch is None", "True if not args.arch else False",
         "True if args.arch is None else False")]
-    ctx.check(ok, "R4", "arch warning exactly when no --arch was given", f.where(aw[0]) if aw else f.where(),
+    ctx.judge(ok, len(aw) == 1, "R4", "arch warning exactly when no --arch was given", f.where(aw[0].value) if aw else f.where(),
               "arch_warning is %s" % ([U(a.value) for a in aw]), f.qname, "arch warning definition")
-    lw = defs(U(kw["length_warning"])) if "length_warning" in kw else []
+    lw = [a for a in flag_defs("length_warning") if isinstance(a, ast.stmt)]
     good = False
+    vals = {}
     if len(lw) == 2:
-        vals = {}
         for a in lw:
             facts = [(U(e), p) for e, p in C.facts_at(a)]
             if ("args.lines", True) in facts:
                 vals["lines"] = a.value
             elif ("args.lines", False) in facts:
                 vals["nolines"] = a.value
+        if set(vals) == {"nolines"}:
+            # default-then-override: an unconditional `flag = False` before the branch on args.lines
+            dflt = [a for a in lw if a.value is not vals["nolines"] and not any("args.lines" in t for t, _ in
+                                                                             [(U(e), p) for e, p in C.facts_at(a)])]
+            if len(dflt) == 1 and C.cfg_of(f).dominates(dflt[0], [a for a in lw if a is not dflt[0]][0]):
+                vals["lines"] = dflt[0].value
         if set(vals) == {"lines", "nolines"}:
             v = vals["nolines"]
             test = v.test if isinstance(v, ast.IfExp) and U(v.body) == "True" and U(v.orelse) == "False" else v
             parts = {U(x) for x in test.values} if isinstance(test, ast.BoolOp) and isinstance(test.op, ast.And) else set()
-            good = U(vals["lines"]) == "False" and parts == {"len(kernel) == len(parsed_code)", "len(kernel) > 100"}
-    ctx.check(good, "R4", "length warning exactly when unmarked, more than 100 parsed lines, no --lines",
+            eq = C.canon_eq("len(kernel)", "len(parsed_code)")
+            good = U(vals["lines"]) == "False" and eq in parts and len(parts) == 2 and bool(
+                parts & {"len(kernel) > 100", "len(parsed_code) > 100"})
+    ctx.judge(good, len(lw) == 2 and set(vals) == {"lines", "nolines"}, "R4", "length warning exactly when unmarked, more than 100 parsed lines, no --lines",
               f.where(lw[0]) if lw else f.where(), "length_warning definitions: %s" % [U(a.value) for a in lw], f.qname,
               "length warning definition")
     kern = [a for a in C.assigns_to(f.node, "kernel") if C.is_call_to(a.value, "reduce_to_section")]
     ctx.check(bool(kern) and U(kern[0].value.args[0]) == "parsed_code", "R4", "'unmarked' is judged against the parsed file",
               f.where(), "kernel is not reduce_to_section(parsed_code, ...)", f.qname, "unmarked comparison")
-    ctx.check("lcd_warning" in kw and U(kw["lcd_warning"]).endswith(".timed_out"), "R4", "LCD warning = the graph's timed_out flag",
-              f.where(t), "lcd_warning is %s" % (U(kw["lcd_warning"]) if "lcd_warning" in kw else None), f.qname, "lcd warning")
+    lcdw = None
+    if "lcd_warning" in kw:
+        o = flow.origin_text(kw["lcd_warning"])
+        lcdw = sorted(o)
+    ctx.judge(lcdw is not None and len(lcdw) == 1 and lcdw[0].endswith(".timed_out"), lcdw is not None, "R4",
+              "LCD warning = the graph's timed_out flag",
+              f.where(t), "lcd_warning originates from %s" % lcdw, f.qname, "lcd warning")
     # consumers
     h = ctx.func("Frontend._user_warnings_header")
     for p, txt in ((h.params()[1], "arch_text"), (h.params()[2], "length_text")):
-        ctx.check(bool(pm.find("M_w += %s if %s else ''" % (txt, p), h.node)), "R4", "%s shown iff %s" % (txt, p), h.where(),
+        ctx.judge(bool(pm.find("M_w += %s if %s else ''" % (txt, p), h.node)), bool(pm.find("M_w += M_t if M_c else ''", h.node)),
+                  "R4", "%s shown iff %s" % (txt, p), h.where(),
                   "header does not append %s exactly when %s" % (txt, p), h.qname, "header " + txt)
     arch_txt = [a for a in C.assigns_to(h.node, "arch_text")]
     ctx.check(bool(arch_txt) and "No micro-architecture was specified" in " ".join(C.str_consts(arch_txt[0])), "R4",
@@ -340,18 +391,21 @@ def _r4(ctx):
               "full_analysis does not hand (arch_warning, length_warning) / (lcd_warning) to header / footer", fa.qname,
               "flag passing")
     ft = ctx.func("Frontend._user_warnings_footer")
-    ctx.check(bool(pm.find("M_w += lcd_text if %s else ''" % ft.params()[1], ft.node)), "R4", "footer shows the LCD warning iff lcd_warning",
+    foot = pm.find("M_w += lcd_text if %s else ''" % ft.params()[1], ft.node)
+    foot_any = foot or pm.find("M_w += M_t if M_c else ''", ft.node)
+    ctx.judge(bool(foot), bool(foot_any), "R4", "footer shows the LCD warning iff lcd_warning",
               ft.where(), "footer condition changed", ft.qname, "footer")
     fd = ctx.func("Frontend.full_analysis_dict")
     for p, name in (("arch_warning", "ArchWarning"), ("length_warning", "LengthWarning"), ("lcd_warning", "LCDWarning")):
         hit = [n for n in ast.walk(fd.node) if isinstance(n, ast.If) and U(n.test) == p
                and any(U(s) == "warnings.append('%s')" % name for s in n.body)]
-        ctx.check(len(hit) == 1, "R4", "dict lists %s iff %s" % (name, p), fd.where(),
+        anyapp = [n for n in ast.walk(fd.node) if isinstance(n, ast.If) and any(U(s) == "warnings.append('%s')" % name for s in n.body)]
+        ctx.judge(len(hit) == 1, bool(anyapp), "R4", "dict lists %s iff %s" % (name, p), fd.where(),
                   "dict does not append %s exactly under `if %s`" % (name, p), fd.qname, "dict " + name)
     # default model of the detected ISA
     a = [x for x in C.assigns_to(f.node, "arch") if "DEFAULT_ARCHS" in U(x.value)]
     ok = any(pm.match("args.arch if args.arch is not None else DEFAULT_ARCHS[BaseParser.detect_ISA(M_c)]", x.value) for x in a)
-    ctx.check(ok, "R4", "without --arch the default model of the detected ISA is used", f.where(),
+    ctx.judge(ok, any(isinstance(x.value, ast.IfExp) for x in a), "R4", "without --arch the default model of the detected ISA is used", f.where(),
               "arch selection is not `args.arch if given else DEFAULT_ARCHS[detect_ISA(code)]`", f.qname, "default arch")
 
 
